@@ -9,6 +9,7 @@ import (
 	"net"
 	"os"
 	"os/exec"
+	"path/filepath"
 	"strings"
 	"sync/atomic"
 	"time"
@@ -37,11 +38,21 @@ func FreePorts(n int) []int {
 func ServerName(port int) string { return fmt.Sprintf("localhost:%d", port) }
 
 // NodeConfig builds the configuration of one node.
+// ShardRoot is where a node with root directory root keeps its shard files: the
+// root itself, or (VERIF_SHARD_SUBDIR set, inherited by node processes) a
+// separate directory, as a deployment with its own shardManager.rootDir has.
+func ShardRoot(root string) string {
+	if sub := os.Getenv("VERIF_SHARD_SUBDIR"); sub != "" {
+		return filepath.Join(root, sub)
+	}
+	return root
+}
+
 func NodeConfig(root string, port int, servers []string, maxShardPoints int64, maxShardSize int64) cluster.ClusterNodeConfig {
 	return cluster.ClusterNodeConfig{
 		RootDir: root, RpcHost: "localhost", RpcPort: port, RpcTimeout: 5, RpcRetries: 1,
 		Servers:      servers,
-		ShardManager: cluster.ShardManagerConfig{RootDir: root, ShardTimeout: 3600, MaxCacheSize: -1},
+		ShardManager: cluster.ShardManagerConfig{RootDir: ShardRoot(root), ShardTimeout: 3600, MaxCacheSize: -1},
 		MaxShardSize: maxShardSize, MaxShardPointCount: maxShardPoints, MaxSearchLimit: 75,
 	}
 }
